@@ -841,4 +841,149 @@ theorem cgForward_M_identity (n : Nat) (tol : ℝ) (maxiter : Option Nat) (A : N
   · rw [cgForward_zero' _ _ _ _ _ _ _ hb, cgForward_zero' _ _ _ _ _ _ _ hb]
     exact ⟨rfl, rfl, fun _ _ => rfl⟩
 
+/-! ## where the model and the code coincide: no vanishing denominator -/
+
+/-- both divisions of the pass that starts from state `s` have a non-zero denominator (`pᵀAp` for `alpha`, `rho_prev`
+for `beta` from the second pass on).  In the real code a zero denominator produces `inf`/`NaN`; in the model `x/0 = 0`. -/
+def StepOK (n : Nat) (A : Nat → Nat → ℝ) (M : Option (Nat → Nat → ℝ)) (s : CGState ℝ) : Prop :=
+  dot n (cgP n M s).get (cgQ n A M s).get ≠ 0 ∧ (s.iter ≠ 0 → s.rhoPrev ≠ 0)
+
+/-- no breakdown in the first `k` passes started from `s0` -/
+def NoBreakdown (n : Nat) (A : Nat → Nat → ℝ) (M : Option (Nat → Nat → ℝ)) (s0 : CGState ℝ) (k : Nat) : Prop :=
+  ∀ j, j < k → StepOK n A M (cgIter n A M s0 j)
+
+theorem cgIter_rhoPrev_succ (n : Nat) (A : Nat → Nat → ℝ) (M : Option (Nat → Nat → ℝ)) (s0 : CGState ℝ) (j : Nat) :
+    (cgIter n A M s0 (j+1)).rhoPrev = cgRho n M (cgIter n A M s0 j) := by
+  show (cgStep n A M (cgIter n A M s0 j)).rhoPrev = _
+  rw [cgStep_eq]
+
+/-- on the property's domain (SPD `A`, SPD or no `M`) there is no breakdown as long as the residuals are non-zero -/
+theorem spd_noBreakdown (n : Nat) (A : Nat → Nat → ℝ) (b : Nat → ℝ) (x0 : Option (Nat → ℝ)) (M : Option (Nat → Nat → ℝ))
+    (hA : IsSPD n A) (hM : ∀ M', M = some M' → IsSPD n M') (k : Nat)
+    (hne : ∀ j, j < k → ∃ i, i < n ∧ (cgIter n A M (cgInit n A b x0) j).r.get i ≠ 0) :
+    NoBreakdown n A M (cgInit n A b x0) k := by
+  intro j hj
+  have h := cg_no_breakdown_model n A b x0 M hA hM j (fun i hi => hne i (by omega))
+  refine ⟨h.2.ne', fun hit => ?_⟩
+  cases j with
+  | zero => simp [cgIter, cgInit] at hit
+  | succ j =>
+    rw [cgIter_rhoPrev_succ]
+    exact (cg_no_breakdown_model n A b x0 M hA hM j (fun i hi => hne i (by omega))).1.ne'
+
+/-- with `tol > 0` every pass the loop actually makes starts from a non-zero residual: on SPD systems the whole run is
+free of breakdown -/
+theorem spd_run_noBreakdown (n : Nat) (tol : ℝ) (maxiter : Option Nat) (A : Nat → Nat → ℝ) (b : Nat → ℝ)
+    (x0 : Option (Nat → ℝ)) (M : Option (Nat → Nat → ℝ))
+    (hA : IsSPD n A) (hM : ∀ M', M = some M' → IsSPD n M') (htol : 0 < tol) :
+    NoBreakdown n A M (cgInit n A b x0) (cgForward n tol maxiter A b x0 M).iter := by
+  by_cases hb : 0 < norm n b
+  · obtain ⟨k, _, e, hmin, _, _⟩ := cgForward_spec n tol maxiter A b x0 M hb
+    have hit : (cgForward n tol maxiter A b x0 M).iter = k := by
+      rw [e]; simp [cgIter_iter, cgInit]
+    rw [hit]
+    apply spd_noBreakdown n A b x0 M hA hM k
+    intro j hj
+    have hn := hmin j hj
+    by_contra hc
+    push Not at hc
+    apply hn
+    rw [norm_zero_of n _ hc]
+    exact mul_pos htol hb
+  · rw [cgForward_zero' _ _ _ _ _ _ _ hb]
+    intro j hj
+    simp at hj
+
+/-- the truncated-SVD law about `A` ITSELF: if `A = U Σ Vᵀ` and every singular value is either above the cut-off or
+zero, then `P = V Σ⁺_cut Uᵀ` is the Moore–Penrose inverse of `A` -/
+theorem tsvd_isPinv_exact {m n r : ℕ} (A : Matrix (Fin m) (Fin n) ℝ) (U : Matrix (Fin m) (Fin r) ℝ)
+    (V : Matrix (Fin n) (Fin r) ℝ) (σ : Fin r → ℝ) (cut : ℝ)
+    (hA : A = U * diagonal σ * Vᵀ) (hU : Uᵀ * U = 1) (hV : Vᵀ * V = 1) (hc : 0 ≤ cut)
+    (hgap : ∀ i, cut < σ i ∨ σ i = 0) :
+    IsPinv A (V * diagonal (svInv σ cut) * Uᵀ) := by
+  have h := tsvd_isPinv U V σ cut hU hV hc
+  rw [tsvd_no_truncation U V σ cut (fun i hi => (hgap i).resolve_left hi), ← hA] at h
+  exact h
+
+/-! ## `pinv(A, hermitian=True)`: eigendecomposition instead of SVD -/
+
+/-- sign with `sgn 0 = +1` -/
+noncomputable def sgn (x : ℝ) : ℝ := if x < 0 then -1 else 1
+
+theorem spm_real (x : ℝ) : spm x = sgn x := by
+  unfold spm sgn
+  simp only [lt_real, k_real, Nat.cast_zero, Nat.cast_one]
+  by_cases h : x < 0 <;> simp [h]
+
+theorem sgn_mul_abs (x : ℝ) : sgn x * |x| = x := by
+  unfold sgn
+  by_cases h : x < 0
+  · simp [h, abs_of_neg h]
+  · simp [h, abs_of_nonneg (not_lt.mp h)]
+
+theorem sgn_mul_sgn (x : ℝ) : sgn x * sgn x = 1 := by
+  unfold sgn; by_cases h : x < 0 <;> simp [h]
+
+/-- the model's hermitian branch is `Q Λ⁺_cut Qᵀ`, and it is the Moore–Penrose inverse of `Q Λ_cut Qᵀ` (eigenvalues of
+modulus `≤ cut` replaced by zero) for every orthogonal `Q`: the truncated-SVD law with `U = Q·sign(Λ)`, `Σ = |Λ|`, `V = Q`. -/
+theorem eigh_isPinv (n : Nat) (Q : Nat → Nat → ℝ) (lam : Nat → ℝ) (cut : ℝ)
+    (hQ : (toMat n n Q)ᵀ * toMat n n Q = 1) (hc : 0 ≤ cut) :
+    IsPinv (toMat n n Q * diagonal (fun i : Fin n => if cut < |lam i| then lam i else 0) * (toMat n n Q)ᵀ)
+      (toMat n n (pinvOfEigh n Q lam cut)) := by
+  set Qm := toMat n n Q with hQm
+  set s : Fin n → ℝ := fun i => sgn (lam i) with hs
+  set σ : Fin n → ℝ := fun i => |lam i| with hσ
+  have hU : (Qm * diagonal s)ᵀ * (Qm * diagonal s) = 1 := by
+    rw [transpose_mul, diagonal_transpose, Matrix.mul_assoc, ← Matrix.mul_assoc Qmᵀ, hQ, Matrix.one_mul,
+      diagonal_mul_diagonal]
+    have : (fun i => s i * s i) = fun _ => (1:ℝ) := by funext i; exact sgn_mul_sgn _
+    rw [this, diagonal_one]
+  have h := tsvd_isPinv (Qm * diagonal s) Qm σ cut hU hQ hc
+  have hf : (fun i => s i * svKeep σ cut i) = fun i : Fin n => if cut < |lam i| then lam i else 0 := by
+    funext i
+    simp only [hs, hσ, svKeep]
+    by_cases hh : cut < |lam i|
+    · rw [if_pos hh, if_pos hh]; exact sgn_mul_abs _
+    · rw [if_neg hh, if_neg hh]; ring
+  have eA : Qm * diagonal s * diagonal (svKeep σ cut) * Qmᵀ
+      = Qm * diagonal (fun i : Fin n => if cut < |lam i| then lam i else 0) * Qmᵀ := by
+    rw [Matrix.mul_assoc Qm, diagonal_mul_diagonal, hf]
+  have hσ' : toVec n (fun t => sabs (lam t)) = σ := by
+    funext i
+    simp only [toVec, hσ, sabs_real]
+  have hUm : toMat n n (fun i t => Q i t * spm (lam t)) = Qm * diagonal s := by
+    funext i j
+    simp only [toMat, Matrix.mul_diagonal, hs, spm_real, hQm]
+  have eP : toMat n n (pinvOfEigh n Q lam cut) = Qm * diagonal (svInv σ cut) * (Qm * diagonal s)ᵀ := by
+    unfold pinvOfEigh
+    rw [toMat_pinvOfSvd, hσ', hUm]
+  rw [eA] at h
+  rw [eP]
+  exact h
+
+/-- trichotomy of the MODEL's `cgForward` (total division `x/0 = 0`; it describes the code while no denominator
+vanishes, see `NoBreakdown`) -/
+theorem cgForward_trichotomy_model (n : Nat) (tol : ℝ) (maxiter : Option Nat) (A : Nat → Nat → ℝ) (b : Nat → ℝ)
+    (x0 : Option (Nat → ℝ)) (M : Option (Nat → Nat → ℝ)) :
+    ((∀ i, i < n → b i = 0) ∧ ∀ i, (cgForward n tol maxiter A b x0 M).x.get i = 0) ∨
+    ((cgForward n tol maxiter A b x0 M).stopped = true ∧
+      norm n (fun i => b i - ∑ j ∈ range n, A i j * (cgForward n tol maxiter A b x0 M).x.get j) < tol * norm n b) ∨
+    ((cgForward n tol maxiter A b x0 M).stopped = false ∧
+      (cgForward n tol maxiter A b x0 M).iter = cgBudget n maxiter ∧
+      ∀ j, j < cgBudget n maxiter → ¬ norm n (cgIter n A M (cgInit n A b x0) j).r.get < tol * norm n b) := by
+  by_cases hb : ∃ i, i < n ∧ b i ≠ 0
+  · right
+    cases hst : (cgForward n tol maxiter A b x0 M).stopped with
+    | true => exact Or.inl ⟨rfl, cgForward_certified n tol maxiter A b x0 M hb hst⟩
+    | false =>
+      obtain ⟨k, _, e, hmin, _, hf⟩ := cgForward_spec n tol maxiter A b x0 M ((norm_pos_iff n b).mpr hb)
+      have hk := hf hst
+      subst hk
+      refine Or.inr ⟨rfl, ?_, hmin⟩
+      rw [e]
+      simp [cgIter_iter, cgInit]
+  · left
+    push Not at hb
+    exact ⟨hb, (cgForward_zero n tol maxiter A b x0 M hb).1⟩
+
 end PP.LinSolve
